@@ -86,6 +86,24 @@ var vfRings = []orb.Ring{
 	{{2, -1}, {3, 2}, {6, 2}, {3, 3}, {2, 6}, {1, 3}, {-2, 2}, {1, 2}, {2, -1}}, // star through all four sides
 }
 
+// rings that touch one side of the box from inside with a vertex exactly on it (once: in through one
+// neighbouring side and out through the other; twice: a "W"), for each of the four sides
+func init() {
+	rot := func(r orb.Ring) orb.Ring {
+		o := make(orb.Ring, len(r))
+		for i, p := range r {
+			o[i] = orb.Point{4 - p[1], p[0]}
+		}
+		return o
+	}
+	once := orb.Ring{{-1, 2}, {2, 0}, {5, 2}, {5, 5}, {-1, 5}, {-1, 2}}
+	twice := orb.Ring{{0.5, 5}, {1, 0}, {2, 2}, {3, 0}, {3.5, 5}, {0.5, 5}}
+	for k := 0; k < 4; k++ {
+		vfRings = append(vfRings, once, twice)
+		once, twice = rot(once), rot(twice)
+	}
+}
+
 func vfEvenOdd(r orb.Ring, q orb.Point) bool {
 	in := false
 	n := len(r)
